@@ -36,28 +36,64 @@ Proof.
 Qed.
 
 
+Lemma after_launch_cases' c i r : after_launch c i = MReturned r -> False.
+Proof. unfold after_launch. destruct (Nat.ltb _ _); discriminate. Qed.
+
 (* ---- the calm region ---- *)
 
-Definition has_trig (s : state) : Prop := existsb is_trigger (hist s) = true.
+Definition has_trig (c : config) (s : state) : Prop := existsb (is_trigger c) (hist s) = true.
 
 Definition benign_sig (g : sig) : Prop := g = SigHup \/ g = SigOther.
 Definition benign_op (o : op) : Prop :=
   o = OpReloadAll \/ o = OpSignal SigHup \/ o = OpSignal SigOther.
 
-Record calm (s : state) : Prop := {
+(* Main's result, once fixed *)
+Definition main_res (m : main_pc) : option result :=
+  match m with MExit r | MWaitSd r | MReturned r => Some r | _ => None end.
+
+Record calm (c : config) (s : state) : Prop := {
   cm_errq : errq s = [];
   cm_rn : forall i e, rn_at s i <> RnSending e;
   cm_sigq : forall g, In g (sigq s) -> benign_sig g;
   cm_parent : parent_cancel s = false;
   cm_own : own_cancel s = false;
   cm_sd : sd s = SdNot;
-  cm_main : match main s with MLaunch _ | MGate _ | MGateCheck _ | MReap => True | _ => False end;
-  cm_strig : forall i, get 0 (strig (aux s)) i = 0;
+  cm_main : match main s with MNew | MEntering | MLaunch _ | MGate _ | MGateCheck _ | MReap => True | _ => False end;
+  (* no trigger of a ShutdownSender is pending; only a ShutdownSender has a listener *)
+  cm_strig : forall i, ssender (spec c i) = true -> get 0 (strig (aux s)) i = 0;
+  cm_sls : forall i, get LsAbsent (sls s) i = LsIdle -> ssender (spec c i) = true;
   cm_callers : forall k o cs, In (k, o, cs) (callers s) -> benign_op o;
 }.
 
+(* the ghost flag su_fired (a start-up deadline has fired: only LGateTimeout sets it) means: the deadline can
+   fire in this configuration and Main has fixed the start-up timeout as its result *)
+Definition InvSu (c : config) (s : state) : Prop :=
+  su_fired (aux s) = true -> startup_may_fire c = true /\ main_res (main s) = Some ResTimeout.
+
+Lemma InvSu_step c s l s' : InvSu c s -> step c s l = Some s' -> InvSu c s'.
+Proof.
+  intros IS H. unfold step in H. unfold InvSu in *.
+  destruct l; cbn [step0] in H; unfold start_shutdown, store_state in H;
+    step_cases H; inversion H; subst; clear H; simp_st.
+  all: try exact IS.
+  all: try (intros _; split; [|reflexivity];
+            repeat match goal with E : _ && _ = true |- _ => apply andb_true_iff in E as [E ?] end; assumption).
+  all: try (intros X; destruct (IS X) as [A B];
+            repeat match goal with E : main _ = _ |- _ => rewrite E in B end;
+            cbn [main_res] in B;
+            first [discriminate B
+                  |split; [exact A|]; cbn [main_res];
+                   first [exact B|congruence|injection B as ->; reflexivity
+                         |match goal with E : main _ = _ |- _ => rewrite E; exact B end]]).
+Qed.
+
+Lemma InvSu_reachable c s : reachable_sup c s -> InvSu c s.
+Proof. apply sup_inv; [intros X; discriminate X|apply InvSu_step]. Qed.
+
+(* no shutdown without a cause: the start-up deadline has fired, or a trigger event is in the history, or the
+   supervisor is in its calm region *)
 Definition InvTrig (c : config) (s : state) : Prop :=
-  startup_may_fire c = true \/ has_trig s \/ calm s.
+  su_fired (aux s) = true \/ has_trig c s \/ calm c s.
 
 Lemma find_caller_In k l o cs : find_caller k l = Some (o, cs) -> In (k, o, cs) l.
 Proof.
@@ -94,18 +130,41 @@ Proof.
   destruct (get_upd_cases RnDone l i j p) as [-> | ->]; auto.
 Qed.
 
-Lemma calm_init c : calm (init c).
+Lemma get_const_absent {A} (l : list A) i : get LsAbsent (map (fun _ => LsAbsent) l) i = LsAbsent.
+Proof. unfold get. revert i. induction l as [|x l IH]; intros [|i]; cbn; auto. Qed.
+
+(* the shutdown-trigger listeners as Run() creates them: one for each ShutdownSender *)
+Lemma fresh_sls_idle c i :
+  get LsAbsent (map (fun r => if ssender r then LsIdle else LsAbsent) (specs c)) i = LsIdle -> ssender (spec c i) = true.
+Proof.
+  unfold get, spec. revert i. induction (specs c) as [|r l IH]; intros [|i]; cbn; try discriminate.
+  - destruct (ssender r); [reflexivity|discriminate].
+  - apply IH.
+Qed.
+
+Lemma sls_upd_idle (l : list ls_pc) i j : get LsAbsent (upd l i LsDone) j = LsIdle -> get LsAbsent l j = LsIdle.
+Proof. intros H. destruct (get_upd_cases LsAbsent l i j LsDone) as [E|E]; rewrite E in H; [discriminate H|exact H]. Qed.
+
+Lemma sls_mark_idle (l : list ls_pc) j : get LsAbsent (mark_ls_done l) j <> LsIdle.
+Proof.
+  unfold get, mark_ls_done. revert j. induction l as [|p l IH]; intros [|j]; cbn; try discriminate; auto.
+  destruct p; discriminate.
+Qed.
+
+Lemma calm_init c : calm c (init c).
 Proof.
   constructor; cbn; auto.
   - intros i e. unfold rn_at, get. cbn.
     destruct (nth_repeat' RnDone RnNot (nrun c) i) as [-> | ->]; discriminate.
   - intros g [].
-  - intros i. unfold get.
+  - intros i _. unfold get.
     destruct (nth_repeat' 0 0 (nrun c) i) as [-> | ->]; reflexivity.
+  - intros i H. change (get LsAbsent (map (fun _ => LsAbsent) (specs c)) i = LsIdle) in H.
+    rewrite get_const_absent in H. discriminate H.
   - intros k o cs [].
 Qed.
 
-Lemma has_trig_step c s l s' : has_trig s -> step c s l = Some s' -> has_trig s'.
+Lemma has_trig_step c s l s' : has_trig c s -> step c s l = Some s' -> has_trig c s'.
 Proof.
   unfold has_trig. intros H Hs. rewrite (step_hist _ _ _ _ Hs).
   destruct (obs l); [cbn [existsb]; rewrite H; apply orb_true_r|exact H].
@@ -121,17 +180,15 @@ Ltac calm_fields :=
          end.
 
 Lemma calm_step c s l s' :
-  startup_may_fire c = false -> calm s -> step c s l = Some s' -> has_trig s' \/ calm s'.
+  calm c s -> step c s l = Some s' -> su_fired (aux s') = true \/ has_trig c s' \/ calm c s'.
 Proof.
-  intros Su [Cq Cr Cs Cp Co Cd Cm Ct Cc] H. unfold step in H. unfold benign_sig, benign_op in *.
+  intros [Cq Cr Cs Cp Co Cd Cm Ct Cl Cc] H. unfold step in H. unfold benign_sig, benign_op in *.
   assert (Cx : ctx_done s = false) by (unfold ctx_done; now rewrite Cp, Co).
   destruct l; cbn [step0] in H; unfold start_shutdown, store_state in H;
-    rewrite ?Cq, ?Cd, ?Cx, ?Su, ?andb_false_r in H; cbn [andb negb] in H; try discriminate H;
+    rewrite ?Cq, ?Cd, ?Cx, ?andb_false_r in H; cbn [andb negb] in H; try discriminate H;
     step_cases H; inversion H; subst; clear H.
   (* impossible in the calm region *)
   all: try (match goal with E : _ && false && _ = true |- _ => rewrite andb_false_r in E; discriminate E end).
-  all: try (match goal with E : context [startup_may_fire _] |- _ =>
-              rewrite ?Su in E; rewrite ?andb_false_r, ?andb_false_l in E; cbn [andb] in E; discriminate E end).
   all: try (match goal with E : context [_ && false] |- _ =>
               rewrite ?andb_false_r, ?andb_false_l in E; cbn [andb] in E; discriminate E end).
   all: try (exfalso; cbn in Cm; exact Cm).
@@ -140,12 +197,20 @@ Proof.
   all: try (exfalso; match goal with E : rn_at _ ?i = RnSending ?e |- _ => exact (Cr i e E) end).
   all: try (exfalso; match goal with E : find_caller ?k (callers _) = Some (OpShutdown, _) |- _ =>
               destruct (Cc _ _ _ (find_caller_In _ _ _ _ E)) as [X|[X|X]]; discriminate X end).
-  all: try (exfalso; match goal with E : get 0 (strig (aux _)) ?i = S _ |- _ => rewrite Ct in E; discriminate E end).
+  (* a listener receives a shutdown trigger: it belongs to a ShutdownSender, which has none pending *)
+  all: try (exfalso; match goal with E : get 0 (strig (aux _)) ?i = S _, F : get LsAbsent (sls _) ?i = LsIdle |- _ =>
+              rewrite (Ct i (Cl i F)) in E; discriminate E end).
   all: try match goal with s0 : sig |- _ => destruct s0 end.
+  (* the start-up deadline fires *)
+  all: try (left; reflexivity).
+  (* a trigger offered by runnable i: a trigger event iff i is a ShutdownSender *)
+  all: try (match goal with |- _ \/ has_trig _ (with_hist _ (ETrigS ?i)) \/ _ =>
+              destruct (ssender (spec c i)) eqn:Si;
+              [right; left; unfold has_trig; cbn [hist with_hist existsb is_trigger]; rewrite Si; reflexivity|] end).
   (* the event is a trigger *)
-  all: try (left; unfold has_trig; cbn; reflexivity).
+  all: try (right; left; unfold has_trig; cbn; reflexivity).
   (* still calm *)
-  all: right; constructor; cbn; auto.
+  all: right; right; constructor; cbn; auto.
   all: try (calm_fields; eauto; fail).
   all: try (apply rn_upd_ok; [exact Cr|discriminate]).
   all: try exact Cm.
@@ -159,40 +224,134 @@ Proof.
   all: try (match goal with E : sigq _ = ?g :: _ |- False =>
               destruct (Cs g) as [X|X]; try discriminate X; now left end).
   all: try (intros gg [<-|[]]; unfold benign_sig; auto; fail).
+  (* the listeners *)
+  all: try (intros j Hj; apply Cl; exact Hj).
+  all: try exact (fresh_sls_idle c).
+  all: try (intros j Hj; apply Cl; eapply sls_upd_idle; exact Hj).
+  all: try (intros j Hj; exfalso; exact (sls_mark_idle _ _ Hj)).
+  (* a trigger of a runnable that is not a ShutdownSender: the pending count of the ShutdownSenders is unchanged *)
+  all: try (intros j Sj;
+            match goal with |- nth ?jj (upd ?l ?i ?x) 0 = 0 =>
+              assert (N : i <> jj) by (intros ->; congruence);
+              change (get 0 (upd l i x) jj = 0); rewrite (get_upd_other 0 l i jj x N); apply Ct; exact Sj end).
 Qed.
 
 Lemma InvTrig_init c : InvTrig c (init c).
 Proof. right; right. apply calm_init. Qed.
 
+Lemma su_fired_step c s l s' : su_fired (aux s) = true -> step c s l = Some s' -> su_fired (aux s') = true.
+Proof.
+  intros F H. unfold step in H.
+  destruct l; cbn [step0] in H; unfold start_shutdown, store_state in H;
+    step_cases H; inversion H; subst; clear H; simp_st; first [exact F|reflexivity].
+Qed.
+
 Lemma InvTrig_step c s l s' : InvTrig c s -> step c s l = Some s' -> InvTrig c s'.
 Proof.
   intros [Su|[Ht|Cm]] H.
-  - now left.
+  - left. eapply su_fired_step; eassumption.
   - right; left. eapply has_trig_step; eassumption.
-  - destruct (startup_may_fire c) eqn:Su; [now left|].
-    right. eapply calm_step; eassumption.
+  - eapply calm_step; eassumption.
 Qed.
 
 Lemma InvTrig_reachable c s : reachable_sup c s -> InvTrig c s.
 Proof. apply sup_inv; [apply InvTrig_init|apply InvTrig_step]. Qed.
 
-Lemma has_trig_rev s : has_trig s -> existsb is_trigger (rev (hist s)) = true.
+Lemma has_trig_rev c s : has_trig c s -> existsb (is_trigger c) (rev (hist s)) = true.
 Proof.
   unfold has_trig. intros H. apply existsb_exists in H as (e & Hin & He).
   apply existsb_exists. exists e. split; [now apply in_rev in Hin|exact He].
 Qed.
 
-(* C01: every StopCall is preceded by a shutdown trigger *)
+(* the flag never goes back *)
+Lemma su_fired_run c ls : forall s s', su_fired (aux s) = true -> run (step c) s ls = Some s' -> su_fired (aux s') = true.
+Proof.
+  induction ls as [|l ls IH]; intros s s' F H.
+  - now injection H as <-.
+  - cbn [run] in H. destruct (step c s l) as [s1|] eqn:E; [|discriminate].
+    eapply IH; [eapply su_fired_step; eassumption|exact H].
+Qed.
+
+(* C01 (model form): in a state reached without the start-up deadline having fired, every StopCall of the
+   history is preceded by a shutdown trigger.  Checks of every event of a trace need the flag at every prefix:
+   it is monotone, so its value at the end is enough. *)
+Lemma not_before_inv c :
+  forall s, reachable_sup c s ->
+            reachable_sup c s /\ (su_fired (aux s) = false -> all_check (chk_not_before c) (rev (hist s)) = true).
+Proof.
+  apply sup_inv.
+  - split; [exists []; reflexivity|]. intros _. reflexivity.
+  - intros s0 l s1 [Hre Hac] Hs.
+    assert (Hre1 : reachable_sup c s1).
+    { destruct Hre as [ls0 H0]. exists (ls0 ++ [l]). rewrite run_app, H0. cbn [run]. now rewrite Hs. }
+    split; [exact Hre1|]. intros F1.
+    assert (F0 : su_fired (aux s0) = false).
+    { destruct (su_fired (aux s0)) eqn:E; [|reflexivity]. rewrite (su_fired_step _ _ _ _ E Hs) in F1. discriminate F1. }
+    specialize (Hac F0). rewrite (step_hist _ _ _ _ Hs). destruct (obs l) as [e|] eqn:Eo; [|exact Hac].
+    cbn [rev]. rewrite all_check_snoc, Hac. cbn [andb].
+    destruct e; try reflexivity. cbn [chk_not_before].
+    destruct (InvTrig_reachable _ _ Hre) as [X|[X|X]]; [congruence|now apply has_trig_rev|].
+    (* calm: the shutdown body has not started, so StopCall is not enabled *)
+    exfalso. destruct l; try discriminate Eo. injection Eo as ->.
+    unfold step in Hs. cbn [step0] in Hs. rewrite (cm_sd _ _ X) in Hs. discriminate Hs.
+Qed.
+
+Theorem sup_c01_not_before_model c ls s :
+  run (step c) (init c) ls = Some s -> su_fired (aux s) = false ->
+  c01_not_before_strict c (obs_trace obs ls) = true.
+Proof.
+  intros H F. rewrite (trace_is_history _ _ _ H). unfold c01_not_before_strict.
+  apply (not_before_inv c s); [now exists ls|exact F].
+Qed.
+
+Lemma run_returned_hist s :
+  run_returned (rev (hist s)) = true -> existsb (fun e => match e with ERunReturn _ => true | _ => false end) (hist s) = true.
+Proof.
+  unfold run_returned. intros H. apply existsb_exists in H as (x & Hin & Hx). apply in_rev in Hin.
+  apply existsb_exists. now exists x.
+Qed.
+
+(* Run() has returned r: r is Main's result and ERunReturn r is in the history *)
+Definition InvRetEv (s : state) : Prop :=
+  (forall r, main s = MReturned r -> In (ERunReturn r) (hist s)) /\
+  (existsb (fun e => match e with ERunReturn _ => true | _ => false end) (hist s) = true -> exists r, main s = MReturned r).
+
+Lemma InvRetEv_step c s l s' : InvRetEv s -> step c s l = Some s' -> InvRetEv s'.
+Proof.
+  intros IR H. unfold step in H. unfold InvRetEv in *.
+  destruct l; cbn [step0] in H; unfold start_shutdown, store_state in H;
+    step_cases H; inversion H; subst; clear H; split; simp_st.
+  all: try exact (proj1 IR).
+  all: try exact (proj2 IR).
+  all: try (intros r0 Hr; discriminate Hr).
+  all: try (intros r0 Hr; apply after_launch_cases' in Hr; contradiction).
+  all: try (intros r0 Hr; right; apply (proj1 IR); exact Hr).
+  all: try (cbn [existsb orb]; exact (proj2 IR)).
+  all: try (intros Hx; destruct (proj2 IR Hx) as [r0 Hr0]; congruence).
+  all: try (intros r0 Hr; injection Hr as <-; now left).
+  all: try (intros _; eexists; reflexivity).
+  all: try (intros r0 Hr; exfalso; match goal with E : main _ = _ |- _ => rewrite E in Hr; discriminate Hr end).
+Qed.
+
+Lemma InvRetEv_reachable c s : reachable_sup c s -> InvRetEv s.
+Proof. apply sup_inv; [split; [intros r H; discriminate H|intros H; discriminate H]|apply InvRetEv_step]. Qed.
+
+(* C01 (trace form): the only excuse for a StopCall without a trigger before it is the start-up deadline - then
+   Run() returns the start-up timeout error, or has not returned yet and the deadline can fire *)
 Theorem sup_c01_not_before c ls s :
   run (step c) (init c) ls = Some s -> c01_not_before c (obs_trace obs ls) = true.
 Proof.
-  intros H. unfold c01_not_before. destruct (startup_may_fire c) eqn:Su; [reflexivity|]. cbn [orb].
-  eapply all_check_reachable; [|exact H].
-  intros s0 l s1 e Hre Hs Ho. destruct e; try reflexivity. cbn [chk_not_before].
-  destruct (InvTrig_reachable _ _ Hre) as [X|[X|X]]; [congruence|now apply has_trig_rev|].
-  (* calm: the shutdown body has not started, so StopCall is not enabled *)
-  exfalso. destruct l; try discriminate Ho. injection Ho as ->.
-  unfold step in Hs. cbn [step0] in Hs. rewrite (cm_sd _ X) in Hs. discriminate Hs.
+  intros H. assert (Hre : reachable_sup c s) by (now exists ls).
+  unfold c01_not_before. destruct (su_fired (aux s)) eqn:F.
+  - destruct (InvSu_reachable _ _ Hre F) as [A B]. rewrite (trace_is_history _ _ _ H).
+    destruct (run_returned (rev (hist s))) eqn:R.
+    + destruct (InvRetEv_reachable _ _ Hre) as [R1 R2].
+      destruct (R2 (run_returned_hist _ R)) as [r Hr]. rewrite Hr in B. cbn in B. injection B as ->.
+      replace (mem_ev (ERunReturn ResTimeout) (rev (hist s))) with true; [now rewrite orb_true_r|].
+      symmetry. unfold mem_ev. apply existsb_exists. exists (ERunReturn ResTimeout).
+      split; [apply -> in_rev; exact (R1 _ Hr)|reflexivity].
+    + rewrite A. cbn [negb andb]. apply orb_true_r.
+  - rewrite (sup_c01_not_before_model c ls s H F). reflexivity.
 Qed.
 
 (* C04: Run() does not return without a cause *)
@@ -201,9 +360,31 @@ Theorem sup_c04_needs_cause c ls s :
 Proof.
   intros H. eapply all_check_reachable; [|exact H].
   intros s0 l s1 e Hre Hs Ho. destruct e; try reflexivity. cbn [chk_cause].
-  destruct (InvTrig_reachable _ _ Hre) as [X|[X|X]];
-    [now rewrite X|rewrite (has_trig_rev _ X); apply orb_true_r|].
-  exfalso. destruct l; try discriminate Ho. injection Ho as ->.
-  unfold step in Hs. cbn [step0] in Hs. pose proof (cm_main _ X) as Hm.
-  destruct (main s0); try discriminate Hs; exact Hm.
+  destruct l; try discriminate Ho. injection Ho as ->.
+  unfold step in Hs. cbn [step0] in Hs.
+  destruct (InvTrig_reachable _ _ Hre) as [X|[X|X]].
+  - (* the start-up deadline has fired: Main's result is the start-up timeout *)
+    destruct (InvSu_reachable _ _ Hre X) as [A B]. rewrite A. cbn [andb].
+    destruct (main s0) eqn:Em; try discriminate Hs. cbn in B. injection B as ->.
+    destruct (sd s0); try discriminate Hs. destruct r; try discriminate Hs. apply orb_true_r.
+  - rewrite (has_trig_rev _ _ X). reflexivity.
+  - exfalso. pose proof (cm_main _ _ X) as Hm. destruct (main s0); try discriminate Hs; exact Hm.
+Qed.
+
+(* C04 (SIGHUP clause, on the model): as long as no shutdown trigger has occurred and no start-up deadline has
+   fired, the supervisor is in its calm region: the shutdown has not started, nothing is cancelled, Run() has
+   neither returned nor fixed a result - whatever else happened: SIGHUPs, unknown signals, reloads, runnables
+   exiting with nil or with cancellation errors, state changes, triggers offered by runnables that are not
+   ShutdownSenders *)
+Theorem sup_c04_hup c ls s :
+  run (step c) (init c) ls = Some s ->
+  existsb (is_trigger c) (obs_trace obs ls) = false -> su_fired (aux s) = false ->
+  sd s = SdNot /\ own_cancel s = false /\ main_res (main s) = None /\ (forall r, main s <> MReturned r).
+Proof.
+  intros H Ht F. assert (Hre : reachable_sup c s) by (now exists ls).
+  rewrite (trace_is_history _ _ _ H) in Ht.
+  destruct (InvTrig_reachable _ _ Hre) as [X|[X|X]]; [congruence| |].
+  - rewrite (has_trig_rev _ _ X) in Ht. discriminate Ht.
+  - split; [exact (cm_sd _ _ X)|]. split; [exact (cm_own _ _ X)|].
+    pose proof (cm_main _ _ X) as Hm. destruct (main s); try contradiction; (split; [reflexivity|intros r; discriminate]).
 Qed.
